@@ -19,7 +19,7 @@
 EXTENDS CorrSession, TraceBase
 VARIABLE l
 
-InitPool == [k \in 1..NPrim |-> Obj(Primary(k), <<>>, "0")]
+InitPool == InitialPool
 InitLast == [Act("Init") EXCEPT !.out = "ok"]
 
 \* ---- the action a recorded event stands for ---------------------------------------------------------------------------
@@ -33,22 +33,29 @@ ActionOf(c) ==
     [] a.a = "Symm"      -> DoSymm(a.i, a.dt, ex)
     [] a.a = "Deriv"     -> DoDeriv("deriv", a.i, a.variant)
     [] a.a = "Deriv2"    -> DoDeriv("second_deriv", a.i, a.variant)
+    [] a.a = "ItemOf"    -> DoItem(a.i, a.lo, a.hi)
+    [] a.a = "Trace"     -> DoTrace(a.i)
+    [] a.a = "MatSym"    -> DoMatSym(a.i)
+    [] a.a = "Hankel"    -> DoHankel(a.i, a.left, ex)
     [] a.a = "SetPrange" -> SetPrange(a.i, a.lo, a.hi)
     [] a.a = "SetTag"    -> SetTag(a.i, a.tag)
     [] a.a = "Gm"        -> Gm(a.i)
     [] a.a = "Plateau"   -> Plateau(a.i, a.left, a.lo, a.hi)
     [] a.a = "Item"      -> GetItem(a.i, a.t)
 
-KnownAction(c) == c.act.a \in {"Bin", "Scal", "Roll", "Reverse", "Thin", "Symm", "Deriv", "Deriv2", "SetPrange", "SetTag", "Gm", "Plateau", "Item"}
+Creating == {"Bin", "Scal", "Roll", "Reverse", "Thin", "Symm", "Deriv", "Deriv2", "ItemOf", "Trace", "MatSym", "Hankel"}
+KnownAction(c) == c.act.a \in Creating \cup {"SetPrange", "SetTag", "Gm", "Plateau", "Item"}
 \* the recorded operand indices refer to objects of the specification's pool, and there is room for a result
 WellAddressed(c) ==
   LET a == c.act IN
   /\ a.i \in DOMAIN pool
   /\ a.a = "Bin" => a.j \in DOMAIN pool
-  /\ a.a \in {"Bin", "Scal", "Roll", "Reverse", "Thin", "Symm", "Deriv", "Deriv2"} => Room
+  /\ a.a \in Creating => Room
+  /\ a.a = "MatSym" => pool[a.i].prange = <<>>
+  /\ a.a = "ItemOf" => (a.lo \in 1..2 /\ a.hi \in 1..2)
   /\ (a.a = "Bin" /\ a.op = "div") => NoZero(pool[a.j].c)
   /\ (a.a = "Scal" /\ a.op = "div" /\ ~a.left) => NoZero(pool[a.i].c)
-  /\ a.a = "Item" => a.t \in 0..(TLen - 1)
+  /\ a.a = "Item" => (a.t \in 0..(TLen - 1) /\ pool[a.i].c.N = 1)
 
 \* ---- the observed pool against the specification's pool after the step -----------------------------------------------
 ObjVerdicts(id, i, o, m) ==
